@@ -340,6 +340,11 @@ def prepare_attr_value(
     Returns:
         The prepared value.
     """
+    if value is UNCHANGED:
+        # "Keep whatever is currently set": there is nothing to prepare (and
+        # in particular no empty collection to create); `mutate_attr` treats
+        # `UNCHANGED` as a no-op.
+        return value
     value = mutate_value(
         old_value=MISSING,
         new_value=value,
